@@ -377,7 +377,9 @@ func runSCIONServer(ctx context.Context, log *slog.Logger, mtrcs *scionServerMet
 								authMAC,
 							)
 							if err != nil {
-								panic(err)
+								// e.g. a path of a type the MAC computation does not know
+								log.LogAttrs(ctx, slog.LevelInfo, "failed to authenticate packet", slog.Any("error", err))
+								continue
 							}
 							authenticated = subtle.ConstantTimeCompare(scion.PacketAuthOptMAC(authOpt), authMAC) != 0
 							if !authenticated {
